@@ -91,6 +91,9 @@ C2_SPECS = [
     ((('c', 0, 'not'), ('s', 0, 'name')), {'z': ('c', 1, 'obj')}),
     # constants that compare equal but are different values: 1, True, 1.0 / 0, False
     ((('k', 1, True), ('k', 1.0, True)), {'g': (('k', 0, False), ('k', False, True), ('k', 7.0, False))}),
+    # ... also inside containers and in the sign of a zero
+    ((('k', (1,), True), ('k', (True,), True)), {'g': (('k', 0.0, True), ('k', -0.0, False), ('k', (1.0,), False)),
+                                                  'z': ('k', 0.0, False)}),
 ]
 EV_SPECS = ['none', 'byname', 'byobj', 'ctrl', 'filters-name', 'filters-obj', 'filters-not']
 
@@ -107,7 +110,7 @@ def configs(tier):
                 if tier == 'quick' and len(specs) > 60 and c1i and (si + c1i) % 5:
                     continue
                 if tier == 'quick':
-                    out.append(dict(kind='prog', c0=spec, c1=c1i, c2=(si + c1i) % 3,
+                    out.append(dict(kind='prog', c0=spec, c1=c1i, c2=(si + c1i) % len(C2_SPECS),
                                     ev=EV_SPECS[(si + c1i) % len(EV_SPECS)]))
                 else:
                     for c2i in range(len(C2_SPECS)):
@@ -217,8 +220,10 @@ def check_structure(b, circuit, viol, label):
     def matches(obj, exp):
         if exp[0] == 'blk':
             return obj is blocks.get(exp[1])
-        return isinstance(obj, edzed.Const) and obj.output is exp[1] or (
-            isinstance(obj, edzed.Const) and obj.output == exp[1] and type(obj.output) is type(exp[1]))
+        # the same value: equal, of the same type and with the same representation
+        # ((1,) is not (True,), 0.0 is not -0.0)
+        return isinstance(obj, edzed.Const) and obj.output == exp[1] and \
+            type(obj.output) is type(exp[1]) and repr(obj.output) == repr(exp[1])
     used_not = set()
     exp_feed = {}       # consumer name -> set of feeder names
     for j, (args, kwargs) in enumerate(b.specs):
